@@ -41,6 +41,9 @@ class Module:
             self.tree = ast.parse(src, filename=str(path))
         except SyntaxError as e:
             raise AnalysisError('cannot parse %s: %s' % (relpath, e))
+        if not os.environ.get('VERIF_NO_NORMALISE'):
+            from .normalise import normalise
+            normalise(self.tree)        # canonical spelling (docstrings, constant side of ==, if-expressions, temporaries)
         for parent in ast.walk(self.tree):
             for child in ast.iter_child_nodes(parent):
                 child._parent = parent  # type: ignore[attr-defined]
